@@ -729,6 +729,32 @@ func (e *SpecEnv) evalCall(n *SCall) SVal {
 		dh := vc.heapVar(dom)
 		k := arg(1)
 		return SVal{andT(fmt.Sprintf("(not (= %s 0))", m.T), sel(sel(vc.get(e.st, dh), m.T), k.T)), stBool}
+	case "isold":
+		// isold(p): reference p existed when the function was entered (or the call was made)
+		if e.oldAlloc == "" {
+			specFail("isold() not available here")
+		}
+		return SVal{fmt.Sprintf("(<= %s %s)", arg(0).T, e.oldAlloc), stBool}
+	case "global":
+		// global(name): current value of the package-level variable `name` of the contract's package
+		id, ok := n.Args[0].(*SIdent)
+		if !ok || e.pkg == nil || e.frame == nil || e.st == nil {
+			specFail("global(name) not available here")
+		}
+		sp := vc.prog.Prog.Package(e.pkg)
+		if sp == nil {
+			specFail("global: package not loaded")
+		}
+		g, ok := sp.Members[id.Name].(*ssa.Global)
+		if !ok {
+			specFail("global: no package-level variable %s", id.Name)
+		}
+		elT := g.Type().Underlying().(*types.Pointer).Elem()
+		l := &Loc{kind: locObj, ref: vc.globalRef(g), rootT: elT}
+		val := vc.define("gval", vc.sorts.sortOf(elT), e.frame.load(l, e.st))
+		e.frame.assumeTyped(elT, val, e.frame.boundState(l, e.st))
+		vc.applyGlobalSpecs(e.frame, g, val, e.st)
+		return SVal{val, e.goST(elT)}
 	case "iface":
 		// iface(x): the interface value holding Go value x (dynamic type = static type of x)
 		v := arg(0)
